@@ -47,6 +47,9 @@ func genLimit(r *Rng, batch, resultGuess int) (bool, int, int) {
 	if cnt < 0 {
 		cnt = 0
 	}
+	if r.Chance(0.02) {
+		cnt = pick(r, []int{2147483647, 2147483648, 9223372036854775807, 9223372036854775806})
+	}
 	return true, off, cnt
 }
 
@@ -156,7 +159,7 @@ func sliceKeys(keys []string, has bool, off, cnt int) []string {
 		return nil
 	}
 	end := off + cnt
-	if end > len(keys) {
+	if end > len(keys) || end < off {
 		end = len(keys)
 	}
 	return keys[off:end]
@@ -180,7 +183,7 @@ func limitClass(h *HistStmt, batch, nsel int) string {
 	switch {
 	case h.Cnt == 0:
 		cc = "cnt0"
-	case h.Off+h.Cnt >= nsel:
+	case h.Off+h.Cnt >= nsel || h.Off+h.Cnt < h.Off:
 		cc = "cnt>=rest"
 	case batch > 0 && h.Cnt%batch == 0:
 		cc = "cnt=kB"
